@@ -46,6 +46,7 @@ func vrf_interference(mutex interface{}, f func())       { panic("vrf intrinsic"
 func vrf_shared(field interface{}, f func())             { panic("vrf intrinsic") }
 func vrf_yield()                          { panic("vrf intrinsic") }
 func vrf_advance_time(ms int)             { panic("vrf intrinsic") }
+func vrf_elapse(ns int64)                 { panic("vrf intrinsic") }
 func vrf_blocked_goroutines() int         { panic("vrf intrinsic") }
 func vrf_now() int64                      { panic("vrf intrinsic") }
 func vrf_locks_held() int                 { panic("vrf intrinsic") }
@@ -214,6 +215,11 @@ func vrf_advance_time(ms int) {
 	time.Sleep(time.Duration(ms) * time.Millisecond)
 }
 func vrf_blocked_goroutines() int { return 0 }
+
+// natively time really passes, scaled down by vrfTimeScale (a harness may set it)
+var vrfTimeScale int64 = 1
+
+func vrf_elapse(ns int64) { time.Sleep(time.Duration(ns / vrfTimeScale)) }
 func vrf_strsuffix(s, suffix string) bool { return len(s) >= len(suffix) && s[len(s)-len(suffix):] == suffix }
 func vrf_strprefix(s, prefix string) bool { return len(s) >= len(prefix) && s[:len(prefix)] == prefix }
 func vrf_strcontains(s, sub string) bool {
